@@ -234,6 +234,8 @@ func (c *client) Execute(
 	}
 	if err := c.sendCBOR(workStartMsg); err != nil {
 		c.logger.Errorf("Step '%s' failed to write start work message: %v", stepData.ID, err)
+		// The goroutine that was counted in for the signals to the step is not going to be started.
+		c.wg.Done()
 		// The peer never heard of this run, so no result will come for it. Forget the entry prepared above: a pending
 		// entry keeps the read loop, and with it Close, waiting for a result. The run is over for the caller's signal
 		// channel as well: whoever reads it must see it closed, as after any other run.
@@ -254,9 +256,10 @@ func (c *client) Execute(
 	}
 	c.logger.Debugf("Step '%s' started, waiting for response...", stepData.ID)
 	// Handle signals to the step. Only now that the work start is out: a signal written before it is refused by the
-	// peer as a signal for an unknown run, and is lost.
-	if signalsToStep != nil {
-		c.wg.Add(1)
+	// peer as a signal for an unknown run, and is lost. The goroutine was counted in when the run was registered.
+	if signalsToStep == nil {
+		c.wg.Done()
+	} else {
 		go func() {
 			defer c.wg.Done()
 			c.executeWriteLoop(stepData.RunID, signalsToStep)
@@ -688,6 +691,11 @@ func (c *client) prepareResultChannels(
 	if emittedSignals != nil {
 		c.runningStepEmittedSignalChannels[stepData.RunID] = emittedSignals
 	}
+	// Count the goroutine that forwards the caller's signals to the step in now, while Close is known not to have
+	// started waiting (Execute releases the count at once if there are no signals to forward): an Add next to the go
+	// statement, after the work start is written, could hit a Wait in progress whose counter has just dropped to zero
+	// ("WaitGroup is reused before previous Wait has returned").
+	c.wg.Add(1)
 	// Run the loop if it isn't running.
 	if !c.readLoopRunning {
 		// Only a single read loop should be running
